@@ -115,7 +115,7 @@ def division_rule(rule, cs):
                 where = "src/C/%s:%s:%d" % (fname, fn, line)
                 key = "%s:%s:divisor %s" % (fname, fn, D)
                 nsites += 1
-                why = _discharged(c, sim, g, par, node, n, D)
+                why = _discharged(c, sim, g, par, node, n, D) or _callers_guarantee(c, fn, node, D)
                 if why:
                     if key not in seen:
                         rule.ok(key, where, why)
@@ -219,6 +219,50 @@ def _discharged(c, sim, g, par, fnode, n, D):
                 pass
         x = p
     return None
+
+
+_GF = {}
+
+
+def _callers_guarantee(c, fn, fnode, D):
+    """the divisor is a parameter of a file-local helper and every call site passes a variable
+    its caller rejects when zero"""
+    core = D
+    m = re.fullmatch(r"abs\((\w+)\)", D)
+    if m:
+        core = m.group(1)
+    params = [x.get("n") for x in fnode.get("c", []) if x.get("k") == "ParmVarDecl"]
+    if core not in params:
+        return None
+    pos = params.index(core)
+    sites = 0
+    for caller in c.order:
+        if caller == fn:
+            continue
+        for x in cf.walk(c.funcs[caller]):
+            if x.get("k") == "CallExpr" and cf.callee_name(x) == fn and not x.get("bm") and x.get("b") is not None:
+                span = c.paren_after(x["b"])
+                if not span:
+                    return None
+                args = cf.split_top(c.text(span[0] + 1, span[1]))
+                if pos >= len(args):
+                    return None
+                a = re.sub(r"\s+", "", args[pos])
+                ma = re.fullmatch(r"(?:abs\()?(\w+)\)?", a)
+                if not ma:
+                    return None
+                if (c.name, caller) not in _GF:
+                    try:
+                        _GF[(c.name, caller)] = cg.global_sign_facts(cm.Simulator(c, caller))
+                    except Exception:
+                        _GF[(c.name, caller)] = {}
+                f = _GF[(c.name, caller)].get(ma.group(1), ())
+                if not ("!=0" in f or ">0" in f):
+                    return None
+                sites += 1
+    if sites == 0:
+        return None
+    return "parameter `%s`: each of the %d call sites passes a variable its caller rejects when zero" % (core, sites)
 
 
 def _check_pre(c, sim, par, fnode, n, pre):
